@@ -95,6 +95,23 @@ func Check(res *Result) []Violation {
 	if !res.AllReturned {
 		prop, class := "C05", "deadlock:"+stuckClass(res.StuckDesc)
 		msg := "system quiescent but a caller has not returned from Enqueue/Wait; live goroutines: " + strings.Join(res.StuckDesc, "; ")
+		for si, sr := range res.SR {
+			if sr.returned {
+				continue
+			}
+			stuck, cancelled := false, false
+			for _, j := range sr.d.Jobs {
+				stuck = stuck || j.Stuck
+			}
+			for _, e := range res.Events {
+				if e.S == si && e.Kind == EvCancel {
+					cancelled = true
+				}
+			}
+			if stuck && cancelled {
+				add("C09", "not-prompt", fmt.Sprintf("s%d: the context is done but Wait does not return while jobs are still running; %s", si, msg))
+			}
+		}
 		for _, sr := range res.SR {
 			if sr.d.Barrier && !sr.returned {
 				add("C03", "capacity-lost", fmt.Sprintf("barrier of %d simultaneously running jobs never completed: fewer than %d jobs can run at once; %s", sr.limit, sr.limit, msg))
